@@ -114,6 +114,51 @@ theorem refresh_sound_complete (F : Flags) (ds : List DS) (c : Nat) :
   rw [← Lemmas.C18Combo.mem_cidsOf, Lemmas.C18Combo.cidsOf_refresh]
   simp only [List.mem_flatMap, Lemmas.C18Combo.mem_offeredCids]
 
+/-- **the kind filter is a whitelist**: a main component passes iff its kind is one of the three
+kinds that have a flag *and* that flag is on.  (`Kind.extended` stands for every kind without a flag.) -/
+theorem kind_filter_whitelist (F : Flags) (k : Kind) :
+    kindOk F k = true ↔ (k = .numerical ∧ F.numeric = true) ∨ (k = .datetime ∧ F.datetime = true) ∨
+      (k = .categorical ∧ F.categorical = true) := by
+  cases k <;> simp [kindOk]
+
+/-- **a component whose kind has no filter flag is never offered**, for all datasets and all 128 flag
+combinations: if `c` occurs in the relevant datasets only as a main component of kind `extended`
+(the region column of a `RegionData`), no choice list contains it. -/
+theorem unfiltered_kind_never_offered (F : Flags) (ds : List DS) (c : Nat)
+    (hk : ∀ d ∈ ds, ∀ k, (c, k) ∈ d.main → k = .extended)
+    (ho : ∀ d ∈ ds, c ∉ d.derived ∧ c ∉ d.pixel ∧ c ∉ d.world) :
+    Choice.cid c ∉ refresh F ds := by
+  rw [refresh_sound_complete]
+  rintro ⟨d, hd, h⟩
+  obtain ⟨h1, h2, h3⟩ := ho d hd
+  rcases h with ⟨k, hm, hok⟩ | ⟨h, _⟩ | ⟨h, _⟩ | ⟨h, _⟩
+  · rw [hk d hd k hm] at hok
+    exact absurd hok (by simp [kindOk])
+  · exact h1 h
+  · exact h2 h
+  · exact h3 h
+
+/-- **component classes × flags**: for each of glue's component classes (plain, categorical,
+datetime, derived, pixel / world coordinate, dask, extended) and each flag combination, a component
+of that class is offered iff `classOk` says so — numeric ones with `numeric`, derived ones with
+`numeric ∧ derived`, coordinates with `pixel_coord` / `world_coord`, extended ones never.  (What
+family `kinds` checks on the real classes for all 128 combinations.) -/
+theorem class_offered_iff (F : Flags) (cls : CompClass) (c : Nat) :
+    Choice.cid c ∈ refresh F [classDS cls c] ↔ classOk F cls = true := by
+  rw [refresh_sound_complete]
+  cases cls <;> simp [classDS, CompClass.table, CompClass.kind, offered, classOk, kindOk]
+
+/-- every class has a kind the model knows, and every kind is the kind of some class. -/
+theorem kinds_covered :
+    (∀ cls : CompClass, cls ∈ CompClass.all ∧ cls.kind ∈ Kind.all) ∧
+    (∀ k : Kind, k ∈ Kind.all ∧ ∃ cls ∈ CompClass.all, cls.kind = k) := by
+  refine ⟨fun cls => by cases cls <;> decide, fun k => ?_⟩
+  cases k
+  · exact ⟨by decide, .component, by decide, rfl⟩
+  · exact ⟨by decide, .categorical, by decide, rfl⟩
+  · exact ⟨by decide, .datetime, by decide, rfl⟩
+  · exact ⟨by decide, .extended, by decide, rfl⟩
+
 /-- **order**: the offered ids are, dataset by dataset, the main components that pass the filters,
 then the derived ones, then pixel and world coordinates — nothing else, in exactly this order. -/
 theorem refresh_order (F : Flags) (ds : List DS) : cidsOf (refresh F ds) = ds.flatMap (offeredCids F) :=
@@ -167,16 +212,18 @@ theorem explicit_none_accepted :
     selOk p.choices p.sel = true ∧ selOk (p.step (.select none)).choices (p.step (.select none)).sel = false := by
   decide
 
-/-- **a `ComponentIDComboHelper` mirrors its datasets after every history** of component additions,
+/-- **a `ComponentIDComboHelper` mirrors its datasets after every history**, starting from datasets
+with *arbitrary* component tables (`data`: any kinds incl. `extended`, any number of derived / pixel /
+world components — `cinit`, `cinitT` are instances), of component additions (any kind),
 removals, renames, reorders, id replacements, helper and collection operations, flag flips and
 selections, with hub delay blocks opened and closed anywhere: whenever no delay block is open the
 choices are exactly `refresh` of the datasets *as they are now*, and the selection is valid. -/
-theorem combo_history_valid (n : Nat) (idx : Int) (ops : List C18Combo.COp)
-    (ha : Lemmas.C18Combo.cAdmRun (cinit n idx) ops) :
-    let st := crun (cinit n idx) ops
+theorem combo_history_valid (n nCid : Nat) (data : Nat → DS) (idx : Int) (ops : List C18Combo.COp)
+    (ha : Lemmas.C18Combo.cAdmRun (cinitWith n nCid data idx) ops) :
+    let st := crun (cinitWith n nCid data idx) ops
     st.depth = 0 → comboOk st.F (st.hdata.map st.data) st.pick.choices st.pick.sel = true := by
   intro st hd
-  have h := Lemmas.C18Combo.cinv_run ops _ (Lemmas.C18Combo.cinv_init n idx) ha
+  have h := Lemmas.C18Combo.cinv_run ops _ (Lemmas.C18Combo.cinv_initWith n nCid data idx) ha
   have hf : st.pick.choices = refresh st.F (st.hdata.map st.data) := by
     rcases h.fresh with hf | ⟨hp, _⟩
     · exact hf
@@ -203,6 +250,17 @@ theorem dcombo_history_valid (n : Nat) (auto : Bool) (idx : Int) (inDc : List Na
   unfold dcomboOk
   rw [Bool.and_eq_true]
   exact ⟨by rw [← hf]; exact beq_self_eq_true _, h.sel⟩
+
+/-- non-vacuity with a region dataset (`flux`, two centre columns, the region column; ids 0 = pixel,
+1-3 numerical, 4 = extended): all kind flags on → the region column is not offered; the three
+numerical columns removed → nothing left to offer although the region column is still there; the
+region column first in the dataset → default index 0 selects the next column. -/
+example :
+    let reg : Tmpl := ⟨[.numerical, .numerical, .numerical, .extended], 0, 1, 0⟩
+    let st := crun (cinitT [reg] 0) [.helperAppend 0, .setFlag .pixel true]
+    st.pick.choices = [.sepMain, .cid 1, .cid 2, .cid 3, .sepCoord, .cid 0] ∧
+    (crun (cinitT [reg] (-1)) [.helperAppend 0, .removeComp 0 0, .removeComp 0 0, .removeComp 0 0]).pick.choices = [] ∧
+    (crun (cinitT [reg] 0) [.reorder 0, .helperAppend 0]).pick.sel = some 3 := by decide
 
 /-- non-vacuity: a component removed and another one selected inside a delay block; on exit the
 helper drops the stale choice and falls back to the default. -/
